@@ -10,7 +10,7 @@ from vlib.verdict import Case
 PROPERTY = 'C08'
 MANIFEST = {
  'level_text': 'Lean 4 theorems, kernel-checked, about an executable model of irclib.Irc\'s CAP/SASL/registration machine (every handler with its exceptions and partial effects; FSM states, guards and expect_state lists, REQUEST_CAPABILITIES, _nickSetters, line/chunk sizes regenerated from /repo on every run). Proved for every state, configuration and server message, resp. for every history of messages and resets: req_subset and echo_needs_label (each word of a CAP REQ line is advertised and wanted; echo-message only next to labeled-response); sasl_payload_invited / sasl_after_ack / sasl_entered_by_ack (credentials only as the answer to a server AUTHENTICATE inside INIT_SASL/CONNECTED_SASL, which is entered only while handling CAP ACK/NAK with sasl acknowledged); cap_end_once / cap_end_counted / cap_end_from_negotiation (at most one CAP END per connection epoch, none while an authentication is in progress); progress (deadlock-freedom of the bot against a formally defined conformant server, by a joint invariant over all joint histories: connected, or deliberately aborted, or the server still owes an answer); reset_fresh and epoch_clean (after Irc.reset every CAP/SASL/FSM/nick field and both queues equal those of a new Irc; with the real SocketDriver a new socket is only opened right after such a reset, the rest of the old recv chunk is dropped). chunks_terminate (authenticate_generator: full-size lines, then one final line shorter than the chunk size or `+`, spelling the text) is what progress rests on for the credentials. The statement "no CAP REQ outstanding at CAP END" is false for servers sending CAP NEW/DEL mid-negotiation: known finding with a Lean counter-example (cap_end_outstanding_witness) and the true part proved (cap_end_nothing_outstanding_partial: against a conformant server every requested capability is answered once CAP END is sent). An executable acceptor of the conformant-server relation, proved sound, lets the harness ask Lean whether each conformant script lies inside the domain of progress. The model is tied to the code by a differential correspondence run after every message (stub driver: adversarial, state-aware and conformant server scripts; real SocketDriver over a fake socket) which also evaluates the property statement on the implementation\'s own takeMsg stream.',
- 'level_note': 'Trusted: Lean kernel, axioms propext/Classical.choice/Quot.sound only; harness/extractors/conn.py; the correspondence harness (generators bound what it sees; IrcMsg parsing supplies command/args/nick, property C05). Modelled and proved about: feedMsg dispatch, _nickSetters, reset/_setNonResettingVariables/resetSasl/_queueConnectMessages, capUpkeep, endCapabilityNegociation, tryNextSaslMechanism, _maybeStartSasl, doAuthenticate (plain, external, ecdsa with the signature as a parameter), AuthenticateDecoder/authenticate_generator incl. which inputs base64 rejects, do903-908, doCapLs/Ack/Nak/New/Del, _addCapabilities, _onCapSts, _requestCaps (textwrap as greedy word fill), _getNextNick/do43x, do375/376/377/422, doPing, doError, doNick; SocketDriver.reconnect/_read loop/_sendIfMsgs as far as resets and sockets are concerned. progress: stub-driver semantics (an abort ends the epoch), each CAP REQ answered by one ACK or NAK of the same list (split answers only exercised by the generators), at most 4300-digit integers, ASCII commands. Not modelled: scram (library absent), user modes, zombie objects, requireStarttls, TLS itself, the random digits of the fallback nick (compared as a wildcard), Owner.do376 beyond "queues JOINs". Ghost fields endCount/saslAcked/epoch are defined by the model and not observable in the implementation.',
+ 'level_note': 'Trusted: Lean kernel, axioms propext/Classical.choice/Quot.sound only; harness/extractors/conn.py; the correspondence harness (generators bound what it sees; IrcMsg parsing supplies command/args/nick, property C05). Modelled and proved about: feedMsg dispatch, _nickSetters, reset/_setNonResettingVariables/resetSasl/_queueConnectMessages, capUpkeep, endCapabilityNegociation, tryNextSaslMechanism, _maybeStartSasl, doAuthenticate (plain, external, ecdsa with the signature as a parameter), AuthenticateDecoder/authenticate_generator incl. which inputs base64 rejects, do903-908, doCapLs/Ack/Nak/New/Del, _addCapabilities, _onCapSts, _requestCaps (textwrap as greedy word fill), _getNextNick/do43x, do375/376/377/422, doPing, doError, doNick; SocketDriver.reconnect/_read loop/_sendIfMsgs as far as resets and sockets are concerned. cap_end_once / sasl_after_ack also hold along every real-driver history (DReach). progress: stub-driver semantics (an abort ends the epoch), each CAP REQ answered by one ACK or NAK of the same list (split answers only exercised by the generators), at most 4300-digit integers, ASCII commands. Not modelled: scram (library absent), user modes, zombie objects, requireStarttls, TLS itself, the random digits of the fallback nick (compared as a wildcard), Owner.do376 beyond "queues JOINs". Ghost fields endCount/saslAcked/epoch are defined by the model and not observable in the implementation.',
  'technique': 'Lean 4 proof (refinement of every model function to an abstract move system + invariants by induction over arbitrary server message sequences; deadlock-freedom against a formal conformant-server relation) + table extraction + differential correspondence (stub driver and real SocketDriver over a fake socket)',
  'design_ref': 'DESIGN.md §6 C08',
 }
@@ -19,7 +19,8 @@ THEOREMS = ['C08.req_subset', 'C08.wanted_bounded', 'C08.echo_needs_label', 'C08
             'C08.cap_end_counted', 'C08.cap_end_from_negotiation', 'C08.cap_end_outstanding_witness', 'C08.reset_fresh',
             'C08.epoch_clean', 'C08.epoch_clean_scheduled', 'C08.new_socket_only_by_error', 'C08.feedLines_stops', 'C08.flush_wire',
             'C08.progress', 'C08.no_stuck_state', 'C08.jR11', 'C08.srvMoveB_sound',
-            'C08.cap_end_nothing_outstanding_partial', 'C08.chunks_terminate', 'C08.sasl_answer_complete']
+            'C08.cap_end_nothing_outstanding_partial', 'C08.chunks_terminate', 'C08.sasl_answer_complete',
+            'C08.cap_end_once_real', 'C08.sasl_after_ack_real']
 TRUSTED = ['Lean 4.33.0 kernel; axioms ⊆ {propext, Classical.choice, Quot.sound}',
            'harness/extractors/conn.py (FSM states and guards, expect_state lists, REQUEST_CAPABILITIES, _nickSetters, MAX_LINE_SIZE, AUTHENTICATE_CHUNK_SIZE → Gen/Conn.lean)',
            'harness/c08.py: script generators, stub driver, canonical observation, hex line protocol',
